@@ -55,7 +55,7 @@ type joeView struct {
 func buildView(tr *jTrace) *joeView {
 	v := &joeView{Regs: map[string]regRec{}, PanicAt: -1, PubByTok: map[string]*jPubTrace{}, PutByTok: map[string]*putRec{}}
 	for i, e := range tr.Log {
-		if e.Fault == "panic" && v.PanicAt < 0 {
+		if strings.HasPrefix(e.Fault, "panic") && v.PanicAt < 0 {
 			v.PanicAt = i
 		}
 		switch e.Kind {
